@@ -10,6 +10,17 @@ typedef unsigned long long ull;
 static int g_hash_mode = 0;        // hash distribution (must agree with HashInst.hash_fn)
 static long g_fail = -1;           // >= 0: the hash functor throws when this countdown reaches 0
 static size_t g_logStart = 4;
+static bool g_alloc_fail = false;  // the next allocation through VMem throws std::bad_alloc (refused bucket array)
+struct VMem
+{
+	explicit VMem() noexcept {}
+	VMem(VMem&&) = default;
+	VMem(const VMem&) = default;
+	~VMem() = default;
+	VMem& operator=(const VMem&) = delete;
+	void* Allocate(size_t size) { if (g_alloc_fail) { g_alloc_fail = false; throw std::bad_alloc(); } return operator new(size); }
+	void Deallocate(void* ptr, size_t) noexcept { operator delete(ptr); }
+};
 struct HashFail : std::exception { const char* what() const noexcept override { return "HashFail"; } };
 
 static inline size_t c01_hash(uint32_t k)
@@ -87,7 +98,8 @@ typedef std::vector<std::pair<uint32_t, uint32_t>> KVs;
 // ---- uniform adapters over HashSet / HashMap ----
 template<class K, class TR> struct SetAd
 {
-	typedef momo::HashSet<K, TR> C;
+	typedef momo::HashSet<K, TR, VMem> C;
+	typedef typename C::ExtractedItem Ext;
 	typedef C Set;
 	static Set& set(C& c) { return c; }
 	static const bool tagged = K::hasTag;      // sets: the value of the model is the tag
@@ -129,13 +141,14 @@ template<class K, class TR> struct SetAd
 	{
 		return c.Remove([m, r] (const K& e) { return e.id() % m == r; });
 	}
-	template<class Item> static uint32_t key_of(const Item& it) { return it.id(); }
+	static void ext_get(const Ext& e, uint32_t& k, uint32_t& v) { k = e.GetItem().id(); v = e.GetItem().tag(); }
 	template<class Ref> static void get(const Ref& it, uint32_t& k, uint32_t& v) { k = it.id(); v = it.tag(); }
 };
 
 template<class K, class TR, class V = uint32_t> struct MapAd
 {
-	typedef momo::HashMap<K, V, TR> C;
+	typedef momo::HashMap<K, V, TR, VMem> C;
+	typedef typename C::ExtractedPair Ext;
 	typedef typename C::HashSet Set;
 	static Set& set(C& c) { return c.mHashSet; }
 	static const bool tagged = true;
@@ -180,6 +193,7 @@ template<class K, class TR, class V = uint32_t> struct MapAd
 		return c.Remove([m, r] (const K& e, const V&) { return e.id() % m == r; });
 	}
 	template<class Ref> static void get(const Ref& it, uint32_t& k, uint32_t& v) { k = it.key.id(); v = uint32_t(it.value); }
+	static void ext_get(const Ext& e, uint32_t& k, uint32_t& v) { k = e.GetKey().id(); v = uint32_t(e.GetValue()); }
 };
 
 template<class AD> struct Runner
@@ -246,6 +260,8 @@ template<class AD> struct Runner
 	static void run(std::istringstream& is)
 	{
 		C c, t;
+		typename AD::Ext ext;
+		bool extFull = false; uint32_t extK = 0, extV = 0;
 		Twin tw, tt;
 		std::string tok, out;
 		unsigned n = 0;
@@ -257,13 +273,14 @@ template<class AD> struct Runner
 			ull a = 0, b = 0, d = 0;
 			try
 			{
-				if (tok == "I" || tok == "A" || tok == "J")
+				if (tok == "I" || tok == "A" || tok == "J" || tok == "Z")
 				{
 					is >> a >> b; if (tok == "J") is >> d;
 					uint32_t k = uint32_t(a), v = uint32_t(b);
 					bool exp = tw.find(k) == tw.end();
 					bool got;
 					if (tok == "J") { g_fail = long(d) + 1; got = AD::insert(c, k, v, 1); g_fail = -1; }
+					else if (tok == "Z") { g_alloc_fail = true; got = AD::insert(c, k, v, n); g_alloc_fail = false; }
 					else if (tok == "A") got = AD::add(c, k, v);
 					else got = AD::insert(c, k, v, n);
 					if (got) tw[k] = v;
@@ -315,6 +332,33 @@ template<class AD> struct Runner
 					emit(got ? "1" : "0");
 					oracle(got == (tw.find(uint32_t(a)) != tw.end()), "extract");
 				}
+				else if (tok == "X")
+				{	// extract into the holder (if it is empty)
+					is >> a; typename AD::C::Key e(uint32_t(a), 0);
+					auto pos = c.Find(e); bool got = !!pos && !extFull;
+					if (got)
+					{
+						c.Remove(static_cast<typename AD::C::ConstIterator>(pos), ext);
+						AD::ext_get(ext, extK, extV); extFull = true;
+						auto it = tw.find(uint32_t(a));
+						oracle(it != tw.end() && extK == it->first && extV == it->second && !ext.IsEmpty(), "extract-holder");
+						if (it != tw.end()) tw.erase(it);
+					}
+					emit(got ? "1" : "0");
+					oracle(extFull || tw.find(uint32_t(a)) == tw.end(), "extract-find");
+				}
+				else if (tok == "Q")
+				{	// insert the holder
+					bool got = false;
+					if (extFull)
+					{
+						got = c.Insert(std::move(ext)).inserted;
+						bool exp = tw.find(extK) == tw.end();
+						if (got) { tw[extK] = extV; extFull = false; }
+						oracle(got == exp && ext.IsEmpty() == got, "insert-holder");
+					}
+					emit(got ? "1" : "0");
+				}
 				else if (tok == "K")
 				{
 					is >> a >> b;
@@ -343,7 +387,15 @@ template<class AD> struct Runner
 				}
 				else if (tok == "N") { emit(std::to_string(c.GetCount())); oracle(c.GetCount() == tw.size(), "count"); }
 				else if (tok == "Y") { C copy(c); c = std::move(copy); emit("u"); oracle(c.GetCount() == tw.size(), "copy"); }
-				else if (tok == "M") { C tmp(std::move(c)); oracle(c.GetCount() == 0, "moved-from"); c = std::move(tmp); emit("u"); }
+				else if (tok == "M")
+				{	// b = std::move(a); plus a move-construction round trip of b
+					t = std::move(c); tt = tw; tw.clear();
+					oracle(c.GetCount() == 0, "moved-from");
+					c = C();		// a moved-from momo container has no crew: it may only be assigned to or destroyed
+					C tmp(std::move(t)); oracle(t.GetCount() == 0, "moved-from"); t = std::move(tmp);
+					emit("u");
+					oracle(c.GetCount() == 0 && t.GetCount() == tt.size(), "move");
+				}
 				else if (tok == "S") { c.Swap(t); std::swap(tw, tt); emit("u"); }
 				else if (tok == "G")
 				{
@@ -357,8 +409,8 @@ template<class AD> struct Runner
 			}
 			catch (const std::exception& ex)
 			{
-				g_fail = -1;
-				emit("X");
+				g_fail = -1; g_alloc_fail = false;
+				emit(tok == "Z" ? "Xz" : "X");
 			}
 		}
 		puts(out.c_str());
@@ -381,7 +433,7 @@ static int c01_main(const Reg* regs, size_t nregs, void (*leaf)(const std::vecto
 	{
 		std::istringstream is(line);
 		std::string name; is >> name;
-		if (name == "cap" || name == "idx")
+		if (name == "cap" || name == "idx" || name == "sh")
 		{
 			std::vector<std::string> w; std::string x; while (is >> x) w.push_back(x);
 			if (leaf) leaf(w); else puts("?leaf");
